@@ -12,7 +12,7 @@ C04_RULES = {'GranulesNeverDecrease', 'GranuleIsSampleEnd', 'EosOnlyOnLastPacket
              'RoundTripCount', 'SamplesPerPacket', 'VorbisfileOpens', 'PcmTotalIsN', 'LinearReadDeliversN', 'WroteSucceeds', 'PacketDecodes',
              'HeadersAccepted', 'SynthesisInitSucceeds', 'HalfRateAccepted', 'AnalysisInitSucceedsAfterSetup', 'HeaderOutSucceeds',
              'NoCrash', 'CallsTerminate', 'LibraryNeverExits', 'UnknownEvent'}
-C05_RULES = {'AudioPacketHeaderValid', 'WindowFlagsAgree', 'PacketNumbersSequential', 'PacketNotEmpty', 'HeadersAccepted', 'HeaderConveysInfo',
+C05_RULES = {'IdHeaderParses', 'IdHeaderConveysInfo', 'SetupHeaderParses', 'SetupHeaderHasNoTrailingBytes', 'SetupHeaderWellFormed', 'AudioPacketHeaderValid', 'WindowFlagsAgree', 'PacketNumbersSequential', 'PacketNotEmpty', 'HeadersAccepted', 'HeaderConveysInfo',
              'IdHeaderMatchesInfo', 'PacketDecodes', 'ConsumedToLastByte', 'NeverRunsOutOfBits', 'TruncationOnlyUnderHardMax', 'PaddingOnlyUnderHardMin',
              'SynthesisInitSucceeds', 'HeaderOutSucceeds', 'NoRateManagerWhenSwitchedOff', 'AddBlockReturnsZero', 'ChoiceInRange', 'NoCrash', 'CallsTerminate', 'LibraryNeverExits', 'UnknownEvent'}
 
@@ -174,7 +174,7 @@ def fam_signals(rng, n, nsamp):
         if rng.random() < .3 and ls[-1] == 'esetup 0':
             ls.insert(-1, rng.choice(['ectl 0 cpset 0', 'ectl 0 lowset 9000', 'ectl 0 ibset -80', 'ectl 0 lowset 30000']))
         N = rng.choice([nsamp, nsamp // 2, nsamp * 2])
-        ls += ['eainit 0', 'ehdr 0', f'ewrite 0 {N} {sig} {rng.choice([1024, 4096, 500])}', 'eeof 0', 'dec 0 p 0 1', 'eclear 0 bdci']
+        ls += ['eainit 0', 'ehdr 0 dump', f'ewrite 0 {N} {sig} {rng.choice([1024, 4096, 500])}', 'eeof 0', 'dec 0 p 0 1', 'eclear 0 bdci']
         out.append(Scn(f'sig{sig}-{i}-{cfg[0]}ch-{cfg[1]}', ls, 'signal-x-config', budget=120, cost=20 + N * cfg[0] // 150))
     return out
 
@@ -187,8 +187,31 @@ def fam_starved(rng, n, nsamp):
     combos = [(b, c, sg) for b in bases for c in STARVED_CTL for sg in (1, 7, 3, 4)]
     rng.shuffle(combos)
     for i, (b, c, sg) in enumerate(combos[:n]):
-        ls = ['einit 0'] + b + ['ectl 0 rm2set ' + ' '.join(map(str, c)), 'esetup 0', 'eainit 0', 'ehdr 0', f'ewrite 0 {nsamp} {sg} 4096', 'eeof 0', 'dec 0 p 0 1', 'eclear 0 bdci']
+        ls = ['einit 0'] + b + ['ectl 0 rm2set ' + ' '.join(map(str, c)), 'esetup 0', 'eainit 0', 'ehdr 0 dump', f'ewrite 0 {nsamp} {sg} 4096', 'eeof 0', 'dec 0 p 0 1', 'eclear 0 bdci']
         out.append(Scn(f'starved-{i}-sig{sg}', ls, 'starved-average-no-limit', budget=120, cost=20 + nsamp // 75))
+    return out
+
+def strict_reader(res):
+    """second validation: SetupParse_Trace reads the identification and setup packets the encoder emitted (bytes in the HeaderOut events) with the strict
+       TLA+ reader and judges them with IdOK / SetupOK; its verdicts join the violations of the run"""
+    import glob
+    tps = sorted(glob.glob(os.path.join(res['rundir'], 'b*.ndjson')))
+    def val(tp): return tp, vlib.validate_trace('SetupParse_Trace.tla', 'SetupParse_Trace.cfg', tp, timeout=1200)
+    with ThreadPoolExecutor(max_workers=8) as ex: rs = list(ex.map(val, tps))
+    out = dict(headers_read=0, books=0, bits=0, states=0)
+    for tp, r in rs:
+        if r['error'] or not r['ok']: res['infra'].append(f'TLC problem (SetupParse_Trace) on {tp}: ' + r['out'][-600:]); continue
+        out['states'] += r['distinct']; evs = vlib.read_ndjson(tp)
+        for m in re.finditer(r'"PARSED (\{.*\})"', r['out']):
+            try: v = json.loads(m.group(1).replace('\\"', '"'))
+            except Exception: continue
+            out['headers_read'] += 1; out['books'] += v['books']; out['bits'] += v['bits']
+        for m in re.finditer(r'"VIOL (\{.*\})"', r['out']):
+            try: v = json.loads(m.group(1).replace('\\"', '"'))
+            except Exception: continue
+            v['trace'] = tp; v['script'] = tp[:-7] + '.txt'
+            if 1 <= v['line'] <= len(evs): v['event'] = {k: x for k, x in evs[v['line'] - 1].items() if k not in ('idbytes', 'setupbytes')}
+            res['viols'].append(v)
     return out
 
 def check_c05(pid, tier, seed, replay=None):
@@ -203,6 +226,7 @@ def check_c05(pid, tier, seed, replay=None):
             extra_viol.append(dict(replay=p, what=f'design-level invariant violated in {name}'))
     scns = fam_signals(rng, 40 if q else 1500, 12000 if q else 40000) + fam_starved(rng, 8 if q else 120, 16000 if q else 60000)
     res = run_batch(pid, scns, bindir, 'ench', *TRACE)
+    strict = strict_reader(res)
     def nontrivial(s, evs): return sum(1 for e in evs if e.get('e') == 'DecPkt') >= 3
     npk = sum(1 for s in scns for e in res['scn_events'].get(s.name, []) if e.get('e') == 'DecPkt')
     nlong = sum(1 for s in scns for e in res['scn_events'].get(s.name, []) if e.get('e') == 'Pkt' and e.get('W') == 1)
@@ -210,7 +234,7 @@ def check_c05(pid, tier, seed, replay=None):
     return finish(pid, tier, seed, 'model_checking', scns, res, C05_RULES, t0,
                   'scenarios = signal family (noise, silence, impulses, full scale, DC, denormals, beyond +-1, tones, alternations) x encoder configuration (VBR qualities, ABR, CBR, max-only, min-only, ctl settings) + average-only management starved below the need of the signal with small reservoirs (no hard limit: nothing may be truncated); every header and audio packet is fed to the real decoder and the bits it consumed are logged; non-trivial = at least 3 audio packets were decoded and checked; distinct by script hash',
                   nontrivial,
-                  ['the three header packets are checked through the decoder\'s acceptance and the fixed-offset fields of the identification header; a strict TLA+ parser of the setup header is part of C01/C02 (Setup.tla) and not applied to encoder output here',
+                  ['the identification and setup packets of every run are read by the strict TLA+ reader (SetupParse.tla: to the last bit, IdOK, SetupOK, same channels / rate / block sizes as the info structure) and accepted by the real decoder; the comment packet is checked through the decoder and C16',
                    'TLC, libogg, ASan build of the current tree'],
-                  CHECKER, extra_cov=dict(design_model=mc, audio_packets_checked=npk, long_packets=nlong, truncated_or_padded=ntr, exhaustive=False), extra_viol=extra_viol,
+                  CHECKER, extra_cov=dict(design_model=mc, strict_reader=strict, audio_packets_checked=npk, long_packets=nlong, truncated_or_padded=ntr, exhaustive=False), extra_viol=extra_viol,
                   sample_keys={'e', 'W', 'lW', 'nW', 'gp', 'eos', 'no', 'bytes', 'used', 'rs', 'rb', 'n', 'k', 'ret', 'managed', 'type', 'mode'})
